@@ -8,6 +8,11 @@
                  only behind are_dependencies_available_for == true; the availability query itself is honest
   causality      queue_package / queue_requirement / queue_constraint are only called from the dependencies consumer
   new-solvables  the solvables run_sat hands to the encoder are decisions with value true that were not encoded yet
+
+Added after the second and third seeding rounds:
+  encode-inputs  the first encode of a run receives exactly the run's solvable; later ones only solvables read from the complete
+                 decision stack (no skipping / truncating adaptor)
+  hint-bits-grow-only / hint-bits-only-set-true  a hint once recorded is never lost (shared with C13, C20)
 """
 from common import *
 import q, mech
